@@ -211,14 +211,23 @@ def parseBody (fec : Option (Nat × Nat)) (b : Bytes) : Option Frame :=
           | _ => none
       else none
 
-/-- a whole plaintext datagram.  `crypt = true`: 16-byte nonce and CRC32 in front. -/
-def parseDatagram (crc : Bytes → BitVec 32) (crypt : Bool) (fec : Option (Nat × Nat)) (b : Bytes) :
+/-- how the datagram is protected, as far as the layout is concerned -/
+inductive Crypt where
+  | none                 -- no cipher: the body starts at byte 0
+  | block                -- nonce(16) ‖ crc32(4) ‖ body, the whole datagram encrypted
+  | aead (n : Nat)       -- nonce(n) ‖ Seal(body): after opening, nonce(n) ‖ body
+deriving DecidableEq, Repr
+
+/-- a whole datagram after decryption (AEAD: the nonce followed by the opened plaintext). -/
+def parseDatagram (crc : Bytes → BitVec 32) (crypt : Crypt) (fec : Option (Nat × Nat)) (b : Bytes) :
     Option (Bytes × Frame) :=
-  if crypt then
+  match crypt with
+  | .block =>
     match parseCrypt crc b with
     | none => none
     | some (nonce, rest) => (parseBody fec rest).map fun f => (nonce, f)
-  else (parseBody fec b).map fun f => ([], f)
+  | .aead n => if b.length < n then none else (parseBody fec (b.drop n)).map fun f => (b.take n, f)
+  | .none => (parseBody fec b).map fun f => ([], f)
 
 def Frame.segs : Frame → List (SegHdr × Bytes)
   | .kcp s => s
